@@ -201,7 +201,7 @@ func (c *Ctx) variantCond(f *FA, x *bvCtx, b *ssa.BasicBlock) string {
 		if isLoopExitEdge(f.Fn, p, other) {
 			continue
 		}
-		if tok := moreLastToken(f.Fn, p, iff, taken); tok != "" {
+		if tok := moreLastTokenF(f, f.Fn, p, iff, taken); tok != "" {
 			parts = append(parts, tok)
 			continue
 		}
@@ -234,6 +234,12 @@ func (c *Ctx) variantCond(f *FA, x *bvCtx, b *ssa.BasicBlock) string {
 // moreLastToken recognises the "is there a following element" test (i+1) < len(list) inside a range
 // loop: "#more" on its true edge, "#last" on its false edge.
 func moreLastToken(fn *ssa.Function, p *ssa.BasicBlock, iff *ssa.If, taken bool) string {
+	return moreLastTokenF(nil, fn, p, iff, taken)
+}
+
+// moreLastTokenF: with f, the right-hand side may also be an integer that equals the bound of the enclosing range
+// loop (the element count computed separately, e.g. as the sum of the lengths of the lists that were concatenated).
+func moreLastTokenF(f *FA, fn *ssa.Function, p *ssa.BasicBlock, iff *ssa.If, taken bool) string {
 	cond, ok := iff.Cond.(*ssa.BinOp)
 	if !ok || cond.Op != token.LSS {
 		return ""
@@ -254,12 +260,41 @@ func moreLastToken(fn *ssa.Function, p *ssa.BasicBlock, iff *ssa.If, taken bool)
 	if kv, _ := constInt64(k.Value); kv != 1 {
 		return ""
 	}
-	lc, ok := cond.Y.(*ssa.Call)
-	if !ok {
-		return ""
+	isLen := false
+	if lc, ok := cond.Y.(*ssa.Call); ok {
+		if bi, ok := lc.Call.Value.(*ssa.Builtin); ok && bi.Name() == "len" {
+			isLen = true
+		}
 	}
-	if bi, ok := lc.Call.Value.(*ssa.Builtin); !ok || bi.Name() != "len" {
-		return ""
+	if !isLen {
+		if f == nil {
+			return ""
+		}
+		// the bound of the innermost loop around p: header test `index < len(list)`
+		same := false
+		var inner *loopInfo
+		for _, li := range naturalLoops(fn) {
+			if li.body[p] && (inner == nil || len(li.body) < len(inner.body)) {
+				inner = li
+			}
+		}
+		if inner != nil {
+			if hif, ok := inner.header.Instrs[len(inner.header.Instrs)-1].(*ssa.If); ok {
+				if hc, ok := hif.Cond.(*ssa.BinOp); ok && hc.Op == token.LSS {
+					if lc, ok := hc.Y.(*ssa.Call); ok {
+						if bi, ok := lc.Call.Value.(*ssa.Builtin); ok && bi.Name() == "len" {
+							// the index tested is the loop's own counter
+							if ph, ok := add.X.(*ssa.Phi); ok && ph.Block() == inner.header || add.X == hc.X {
+								same = f.LFOf(cond.Y).key() == f.LFOf(hc.Y).key()
+							}
+						}
+					}
+				}
+			}
+		}
+		if !same {
+			return ""
+		}
 	}
 	if taken {
 		return "#more"
